@@ -7,6 +7,7 @@ package main
 import (
 	"fmt"
 	"math"
+	"regexp"
 	"sort"
 	"strconv"
 	"strings"
@@ -44,7 +45,15 @@ type c09Spec struct {
 	Calls   []c09Call
 }
 
-func c09MethodName(opt string) string { return tools.UpperCamelCase(opt) }
+// c09PyNames: method names as the Python jenny prints them (snake case); set by the Python stream
+var c09PyNames bool
+
+func c09MethodName(opt string) string {
+	if c09PyNames {
+		return tools.SnakeCase(strings.TrimLeft(opt, "$_"))
+	}
+	return tools.UpperCamelCase(opt)
+}
 
 func (a c09Arg) json() string {
 	switch a.Kind {
@@ -138,6 +147,7 @@ type c09Gen struct {
 	ss  ast.Schemas
 	bs  ast.Builders
 	pkg string
+	py  bool // Python lab: no date-time strings, no plain struct documents (they need class instances)
 }
 
 func (g *c09Gen) object(ref *ast.RefType) (ast.Object, bool) {
@@ -244,6 +254,9 @@ func (g *c09Gen) scalar(t ast.Type, violate bool) (JV, bool, bool) {
 		return jBool(g.r.chance(50)), false, true
 	case ast.KindString:
 		if t.HasHint(ast.HintStringFormatDateTime) {
+			if g.py {
+				return jNull(), false, false
+			}
 			return jStr(pick(g.r, []string{"2021-03-04T05:06:07Z", "1999-12-31T23:59:59Z", "2024-02-29T12:00:00Z"})), false, true
 		}
 		lo, hi := int64(0), int64(-1)
@@ -472,6 +485,9 @@ func (g *c09Gen) plain(t ast.Type, depth int, violate bool) (v JV, violated bool
 			return jNull(), false, false
 		}
 		if o.Type.Kind == ast.KindStruct {
+			if g.py {
+				return jNull(), false, false
+			}
 			return g.structDoc(o, depth, violate)
 		}
 		return g.plain(o.Type, depth, violate)
@@ -754,13 +770,42 @@ func c09Veneers(d *Defs, r *rng, pct int) (string, []string) {
 				opts = append(opts, fmt.Sprintf("  - unfold_boolean: { by_name: %s, true_as: with%sOn, false_as: with%sOff }", sel, n, n))
 				tags = append(tags, "unfold_boolean")
 			case f.Ty.Kind == SRef && ft.Kind == SStruct && !f.Nullable && f.Required && f.Ty.Ref != def.Name:
-				if r.chance(50) {
-					opts = append(opts, fmt.Sprintf("  - struct_fields_as_options: { by_name: %s }", sel))
-					tags = append(tags, "struct_fields_as_options")
-				} else {
-					opts = append(opts, fmt.Sprintf("  - struct_fields_as_arguments: { by_name: %s }", sel))
-					tags = append(tags, "struct_fields_as_arguments")
+				// flatten the member into options / arguments; with some probability go on
+				// flattening the struct members this exposes (sibling options whose assignment
+				// paths share a prefix several levels deep)
+				names := map[string]bool{}
+				for _, g := range def.Ty.Fields {
+					names[strings.ToLower(g.Name)] = true
 				}
+				var expand func(opt string, st *Src, seen map[string]bool, depth int)
+				expand = func(opt string, st *Src, seen map[string]bool, depth int) {
+					clash := false
+					for _, g := range st.Fields {
+						if names[strings.ToLower(g.Name)] && g.Name != opt {
+							clash = true
+						}
+					}
+					if clash || depth > 4 || r.chance(40) && depth > 1 {
+						opts = append(opts, fmt.Sprintf("  - struct_fields_as_arguments: { by_name: %s.%s }", def.Name, opt))
+						tags = append(tags, "struct_fields_as_arguments")
+						return
+					}
+					opts = append(opts, fmt.Sprintf("  - struct_fields_as_options: { by_name: %s.%s }", def.Name, opt))
+					tags = append(tags, "struct_fields_as_options")
+					delete(names, strings.ToLower(opt))
+					for _, g := range st.Fields {
+						names[strings.ToLower(g.Name)] = true
+					}
+					for _, g := range st.Fields {
+						gt := d.resolve(g.Ty)
+						if g.Ty.Kind == SRef && gt != nil && gt.Kind == SStruct && !g.Nullable && g.Required && !seen[g.Ty.Ref] && r.chance(70) {
+							seen[g.Ty.Ref] = true
+							tags = append(tags, fmt.Sprintf("flatten.depth%d", depth+1))
+							expand(g.Name, gt, seen, depth+1)
+						}
+					}
+				}
+				expand(f.Name, ft, map[string]bool{def.Name: true, f.Ty.Ref: true}, 1)
 			case (f.Ty.Kind == SOneOfScalars || f.Ty.Kind == SOneOfStructs) && !f.Nullable && f.Required:
 				opts = append(opts, fmt.Sprintf("  - disjunction_as_options: { by_name: %s }", sel))
 				tags = append(tags, "disjunction_as_options")
@@ -1122,4 +1167,175 @@ func (g *c09Gen) flagViolations(t ast.Type, a *c09Arg) {
 			}
 		}
 	}
+}
+
+// ---------------------------------------------------------------------------------------------
+// what the veneers MEAN for option targets, derived from the source term and the veneer text
+// alone (not from the builder IR cog computed): option name → member paths it assigns, per
+// builder. Only the rules whose documented effect on targets is unambiguous are followed
+// (struct_fields_as_options / struct_fields_as_arguments / duplicate / unfold_boolean); options
+// touched by other option rules are left to the builder IR.
+
+var c09RuleRe = regexp.MustCompile(`^  - (\w+): \{ by_name: (\w+)\.(\w+)(?:, as: (\w+))?(?:, true_as: (\w+), false_as: (\w+))? \}$`)
+
+func c09StructAt(d *Defs, def string, path []string) *Src {
+	cur := d.lookup(def)
+	for _, name := range path {
+		cur = d.resolve(cur)
+		if cur == nil || cur.Kind != SStruct {
+			return nil
+		}
+		var next *Src
+		for _, f := range cur.Fields {
+			if f.Name == name {
+				next = f.Ty
+			}
+		}
+		cur = next
+	}
+	cur = d.resolve(cur)
+	if cur == nil || cur.Kind != SStruct {
+		return nil
+	}
+	return cur
+}
+
+func c09ExpectedTargets(d *Defs, veneers string) map[string]map[string]map[string][]string {
+	// builder → option → (argument name, or "" for a one-assignment option) → member path
+	out := map[string]map[string]map[string][]string{}
+	if d == nil {
+		return out
+	}
+	for _, def := range d.Items {
+		if def.Ty != nil && def.Ty.Kind == SStruct {
+			m := map[string]map[string][]string{}
+			for _, f := range def.Ty.Fields {
+				m[f.Name] = map[string][]string{"": {f.Name}}
+			}
+			out[def.Name] = m
+		}
+	}
+	for _, line := range strings.Split(veneers, "\n") {
+		m := c09RuleRe.FindStringSubmatch(line)
+		if m == nil {
+			continue
+		}
+		rule, obj, opt := m[1], m[2], m[3]
+		t := out[obj]
+		if t == nil {
+			continue
+		}
+		paths, ok := t[opt]
+		switch rule {
+		case "struct_fields_as_options", "struct_fields_as_arguments":
+			single, one := paths[""]
+			if !ok || !one || len(paths) != 1 {
+				delete(t, opt)
+				continue
+			}
+			st := c09StructAt(d, obj, single)
+			if st == nil {
+				continue // not a struct: the rule leaves the option alone
+			}
+			delete(t, opt)
+			if rule == "struct_fields_as_options" {
+				for _, g := range st.Fields {
+					t[g.Name] = map[string][]string{"": append(append([]string{}, single...), g.Name)}
+				}
+			} else {
+				all := map[string][]string{}
+				for _, g := range st.Fields {
+					all[g.Name] = append(append([]string{}, single...), g.Name)
+				}
+				t[opt] = all
+			}
+		case "duplicate":
+			if ok && m[4] != "" {
+				t[m[4]] = paths
+			}
+		case "unfold_boolean":
+			if ok && m[5] != "" {
+				t[m[5]], t[m[6]] = paths, paths
+				delete(t, opt)
+			}
+		default:
+			delete(t, opt) // append / index / disjunction options: targets as the builder IR says
+		}
+	}
+	return out
+}
+
+// c09DeepDefs: a chain of required struct members four levels deep whose leaves are siblings of
+// one scalar type (so that every flattened option has an assignment path of length >= 4)
+func c09DeepDefs(r *rng) *Defs {
+	names := []string{"title", "name", "theme", "mode", "sort", "placement", "level", "size", "note", "kind2", "ratio", "link"}
+	used := map[string]bool{}
+	nm := func() string {
+		for {
+			n := pick(r, names)
+			if !used[n] {
+				used[n] = true
+				return n
+			}
+		}
+	}
+	scalar := func() *Src {
+		switch r.intn(4) {
+		case 0:
+			return srcInt(64, true, nil, nil)
+		case 1:
+			return srcBool()
+		case 2:
+			return srcNum(64, nil, nil)
+		}
+		return srcString()
+	}
+	leafTy := scalar()
+	if leafTy.Kind == SBool {
+		leafTy = srcString()
+	}
+	l3 := srcStruct()
+	for i := 0; i < 2+r.intn(3); i++ {
+		t := leafTy
+		if r.chance(25) {
+			t = scalar()
+		}
+		l3.Fields = append(l3.Fields, fld(nm(), t.clone(), true, false, nil))
+	}
+	leg, disp, cfg := "leg"+nm(), "disp"+nm(), "cfg"+nm()
+	l2 := srcStruct(fld(nm(), scalar(), true, false, nil), fld(leg, srcRef("Legend"), true, false, nil))
+	l1 := srcStruct(fld(nm(), scalar(), true, false, nil), fld(disp, srcRef("Display"), true, false, nil))
+	if r.chance(50) {
+		l1.Fields[0], l1.Fields[1] = l1.Fields[1], l1.Fields[0]
+	}
+	root := srcStruct(fld(nm(), scalar(), true, false, nil), fld(cfg, srcRef("Config"), true, false, nil))
+	return &Defs{Root: "Widget", Items: []Def{{"Widget", root}, {"Config", l1}, {"Display", l2}, {"Legend", l3}}}
+}
+
+func c09DeepVeneers(d *Defs, r *rng) string {
+	var opts []string
+	cur := "Widget"
+	chain := []string{}
+	for {
+		st := d.lookup(cur)
+		next := ""
+		for _, f := range st.Fields {
+			if f.Ty.Kind == SRef {
+				chain = append(chain, f.Name)
+				next = f.Ty.Ref
+			}
+		}
+		if next == "" {
+			break
+		}
+		cur = next
+	}
+	for i, opt := range chain {
+		rule := "struct_fields_as_options"
+		if i == len(chain)-1 && r.chance(35) {
+			rule = "struct_fields_as_arguments"
+		}
+		opts = append(opts, fmt.Sprintf("  - %s: { by_name: Widget.%s }", rule, opt))
+	}
+	return "language: all\npackage: %PKG%\noptions:\n" + strings.Join(opts, "\n") + "\n"
 }
